@@ -14,6 +14,7 @@ EXPLANATION = (
     "(b) a Validation with set_audience(expected_aud), \"aud\" required, validate_aud and signature validation left on, (c) the equal edge of typ == \"kb+jwt\", (d) the equal edge of claims[\"nonce\"] == expected_nonce, "
     "(e) the equal edge of claims[\"sd_hash\"] == recomputed digest. C04.K3: the recomputed digest is base64_hash of a string built from the presented JWT, all presented disclosures and the `~` separator. "
     "C04.K4: every claim name the verifier reads from the KB-JWT is written by the holder's KB-JWT builder, which computes sd_hash with the same function over the same three roots."
+    " Exact form: the text hashed into sd_hash is evaluated structurally to its token normal form for 0..3 disclosures (sa/strmodel.py; join, +, format!, push_str loops, once/chain) and must equal jwt~d0~…~d(n-1)~ on the verifier side (K3) and the holder side (K4); only when a builder is outside that model do the rules fall back to the presence of the three roots. When the key-binding code has been dissolved into the constructor's view, K2 is judged under the both-given valuation (the other valuations are K1's)."
 )
 ASSUMPTIONS = [
     "jsonwebtoken::decode enforces signature, algorithm family and the Validation's audience settings (9.x contract)",
